@@ -137,6 +137,9 @@ PLANS = {
     "C05": [("dest-arbitrary", 900, lambda rng: dest_any(rng, ot(o.o_C05), fault_p=0.3)),
             ("link-faulty", 400, lambda rng: link_faulty(rng, lambda tr, c, r: o.o_C05(tr)))],
     "C06": [("dest-grid-acked", 1500, lambda rng: dest_grid_acked(rng, oc(o.o_C06)))],
+    "C07": [("source-undisturbed", 1200, lambda rng: source_any(
+        rng, lambda tr, c, r: o.Fails(list(o.o_C07(tr, c)) + list(o.o_seglen(tr, c))), quiet=True, well_behaved=True)),
+            ("link-fault-free", 400, lambda rng: link_clean(rng, lambda tr, c, r: o.o_C07(tr, c)))],
     "C08": [("source-naks", 1200, lambda rng: source_any(rng, oc(o.o_C08), always_drain=True))],
     "C10": [("malformed", 1200, lambda rng: malformed(rng, c10_sig)),
             ("dest-arbitrary", 500, lambda rng: dest_any(rng, c10_sig)),
